@@ -148,3 +148,15 @@ claim('C04',
       'One operation per Set, history 1..2 (quick) / 3 (thorough); device reachable during the history (offline / later connection is covered by '
       'the C02/C10 transition-system checks); atomix map contract stubbed. Trusted: go/ssa, executor, z3.',
       'SSA symbolic execution + SMT (z3), case-split operation histories vs reference model', 'DESIGN.md 6/C04')
+claim('C15',
+      'First sentence of the property for the v2 stores: the REAL Create/Update/UpdateStatus/Get/GetByIndex of the transaction, proposal and '
+      'configuration stores are executed symbolically over stub atomix IndexedMap/Map primitives implementing the documented contract, from an '
+      'arbitrary stored version/index: every update carries IfVersion(version read from the object) (an unconditional update is flagged by the '
+      'stub), of two writers of the same version the first succeeds with a larger version and the second gets a Conflict and leaves no trace, '
+      'versions keep growing, created log entries get fresh increasing indexes, duplicate creates are refused.',
+      'NOT claimed: the second sentence (watch delivery, replay vs live events, cancellation) - real goroutine/channel concurrency, outside the '
+      'sequential executor (DESIGN.md section 7); v3 stores not yet covered. atomix primitive contract assumed. Trusted: go/ssa, executor, z3.',
+      'SSA symbolic execution + SMT (z3) over stub primitives', 'DESIGN.md 6/C15, 7')
+NA['C20'] = ('not built in this session: the v3 transaction/configuration/mastership reconcilers need their own flat-store harness (v3 API types, '
+             'per-target logs) analogous to harness/v2; planned as the same transition-relation extraction + BMC with the TLA+ Order/Consistency '
+             'predicates as monitors (DESIGN.md 6/C20)')
